@@ -327,6 +327,8 @@ def campaign_tables(ck: Check) -> None:
     for k in ("raisesBeforeWrites", "restoresSome", "restoresNone", "writesOnlyInLoop", "tableMeetsContract"):
         camp.hit(f"{k}={vals.get(k)}")
     ck.notes["table_refuter"] = vals.get("refuter")
+    camp.hit(f"effectsAfterRaises={vals.get('effectsAfterRaises')}")
+    ck.notes["context_refuter"] = vals.get("ctxRefuter")   # the effect step before a may-raise step, context manager / helpers included
     ck.notes["refusal_contract_refuter"] = vals.get("contractRefuter")
     ck.notes["refusals_extracted"] = [{"fn": r[0], "exc": r[1], "msg": r[2], "conds": r[3], "after_parse": r[4], "before_first_write": r[5]} for r in generate_steps.refusals()]
     pre, loop, post, *_ = generate_steps.tables()
@@ -951,6 +953,76 @@ def campaign_locations(ck: Check, full: bool, n_seeded: int, stop_at_first: bool
     camp.wall_s = time.time() - t0
 
 
+def campaign_chdir(ck: Check, n: int) -> None:
+    """the real context manager `chdir()` against its extracted table (driver `write.chdir`): on seeded targets — None, an existing
+    directory, a file-like path in an existing directory, a path below 1–3 directories that do not exist — with a body that returns or
+    raises: working directory while the body runs / afterwards, whether the body was reached, and whether entering it CREATED anything
+    (tree listing with empty directories). A context manager that creates its target by a call the translator does not see as an
+    effect disagrees here; the search then runs the output-location product."""
+    import datamodel_code_generator as d
+
+    camp = ck.campaign("chdir() real context manager vs extracted table (Lean driver write.chdir): target None / existing directory / file in existing directory / below missing directories x body returns / raises: cwd inside, cwd after, body reached, anything created")
+    t0 = time.time()
+    rng = ck.rng.fork("chdir")
+    shapes = ["none", "existing_dir", "file_in_existing_dir", "existing_file", "missing_1", "missing_2", "missing_3", "dir_below_missing"]
+    obs = []
+    for i in range(n):
+        shape = shapes[i % len(shapes)] if i < 2 * len(shapes) else rng.choice(shapes)
+        body_raises = bool((i // len(shapes)) % 2) if i < 2 * len(shapes) else rng.chance(1, 2)
+        relative = rng.chance(1, 3)
+        root = Path(tempfile.mkdtemp(dir=e2e.scratch_root())).resolve()
+        (root / "cwd").mkdir()
+        (root / "have").mkdir()
+        (root / "have" / "old.py").write_text("OLD = 1\n")
+        comps = [rng.choice(["a", "gen", "x.y", "out dir"]) + str(k) for k in range(3)]
+        target = {"none": None, "existing_dir": root / "have", "file_in_existing_dir": root / "have" / "models.py", "existing_file": root / "have" / "old.py",
+                  "missing_1": root / comps[0] / "models.py", "missing_2": root / comps[0] / comps[1] / "models.py",
+                  "missing_3": root / "have" / comps[0] / comps[1] / comps[2] / "models.py", "dir_below_missing": root / comps[0] / "pkg"}[shape]
+        expect_dir = None if target is None else (target if target.is_dir() else target.parent)
+        start = root / "cwd"
+        arg = target
+        if relative and target is not None:
+            start, arg = root, target.relative_to(root)
+        before = snapshot(root)
+        here = os.getcwd()
+        os.chdir(start)
+        inside, err = None, None
+        try:
+            with d.chdir(arg):
+                inside = os.getcwd()
+                if body_raises:
+                    raise Injected("body")
+        except BaseException as e:  # noqa: BLE001
+            err = e
+        after_cwd = os.getcwd()
+        os.chdir(here)
+        diff = tree_diff(before, snapshot(root))
+        shutil.rmtree(root, ignore_errors=True)
+        camp.evaluations += 1
+        entered = inside is not None
+        fault = "enter" if not entered else ("body" if body_raises else "none")
+        impl = {"inside": None if not entered else ("orig" if Path(inside) == start else ("target" if expect_dir is not None and Path(inside) == expect_dir.resolve() else "elsewhere")),
+                "after": "orig" if Path(after_cwd) == start else "moved", "created": bool(diff)}
+        camp.hit(f"target:{shape}")
+        camp.hit("body:" + ("not-reached:" + type(err).__name__ if not entered else ("raises" if body_raises else "returns")))
+        camp.hit("path:" + ("relative" if relative and target is not None else "absolute"))
+        key = {"shape": shape, "body_raises": body_raises, "relative": relative and target is not None}
+        camp.distinct.add(json.dumps(key, sort_keys=True))
+        obs.append((key, fault, target is not None, impl, diff))
+    reps = ck.driver.run([f"write.chdir {int(some)} {hx(fault)}" for _, fault, some, _, _ in obs])
+    for (key, fault, some, impl, diff), rep in zip(obs, reps):
+        vals = dict(t.split("=", 1) for t in rep.split(" ")[1:])
+        model = {"inside": vals.get("inside") if fault != "enter" else None, "after": "orig" if vals.get("after") == "orig" else "moved", "created": vals.get("effects") != "0"}
+        if fault == "enter" and vals.get("entered") == "true":
+            model["inside"] = "no-step-of-the-table-switches-directory"
+        if model != impl:
+            ck.notes["chdir_disagreement"] = True
+            ck.disagree(camp, {**key, "fault": fault}, model, {**impl, "tree_diff": diff[:3]})
+        if len(camp.samples) < 3 and key["shape"].startswith("missing"):
+            camp.samples.append({**key, "fault": fault, "model": model, "real": impl})
+    camp.wall_s = time.time() - t0
+
+
 def d17_model_correspondence(ck: Check) -> None:
     """the former D17 witness: model run with an unencodable text vs the real encoding failure"""
     camp = ck.campaign("former D17 witness: model run with an unencodable text vs the real encoding failure (both: failed, nothing changed)")
@@ -978,7 +1050,7 @@ def search_after_broken_table(ck: Check) -> None:
     # points at the runs to make — every input kind that gives that kind of result, every output state of that kind
     # an effect before the last may-raise step (in generate(), in the context manager it enters, in a helper): what such an effect
     # leaves behind shows where the output location does not exist yet — the full product of locations x failure kinds x path forms
-    if (ck.notes.get("context_refuter") or "none") != "none" or (ck.notes.get("table_refuter") or "none").startswith("effect-before-raise"):
+    if ck.notes.get("chdir_disagreement") or (ck.notes.get("context_refuter") or "none") != "none" or (ck.notes.get("table_refuter") or "none").startswith("effect-before-raise"):
         campaign_locations(ck, True, 60, stop_at_first=True)
         if ck.failures:
             return
@@ -1040,6 +1112,7 @@ def run(ck: Check) -> None:
     campaign_headers(ck, 6 if quick else 120)
     campaign_histories(ck, 30 if quick else 400)
     campaign_locations(ck, not quick, 8 if quick else 200)
+    campaign_chdir(ck, 48 if quick else 600)
     d17_model_correspondence(ck)
     ck.search_hooks.append(search_after_broken_table)
     known_findings(ck)
